@@ -40,6 +40,15 @@ fn leaves() -> Vec<Expr> {
          Expr::new_const(Numeric::from(2)), Expr::new_const(Numeric::from_frac(5, 2))]
 }
 
+/// leaves the parser produces from quoted identifiers (`"a b"`), `\u` escapes and escaped quote strings:
+/// names that are not a plain identifier, strings holding a quote, a line break or a tab
+fn odd_leaves() -> Vec<Expr> {
+    let mut v: Vec<Expr> = ["a b", "", "degC", "to", "per", "mod", "it\"s", "a\\b", "1x", "x-y", "2", "-", "a'b", " ", "x\ny", "0x1f", "°C", "m^2", "(", "a,b", "#"]
+        .iter().map(|n| Expr::new_unit(n.to_string())).collect();
+    for q in ["it's", "a\nb", "\t", "", "'", "a\"b", "''", "\n'"] { v.push(Expr::Quote { string: q.to_string() }); }
+    v
+}
+
 /// every way to put `kids` under one constructor
 fn parents(kids: &[Expr], out: &mut Vec<Expr>, small: bool) {
     for a in kids {
@@ -58,7 +67,7 @@ fn parents(kids: &[Expr], out: &mut Vec<Expr>, small: bool) {
 
 fn rand_expr(rng: &mut Rng, depth: u32) -> Expr {
     let lv = leaves();
-    if depth == 0 || rng.chance(1, 4) { return rng.pick(&lv).clone(); }
+    if depth == 0 || rng.chance(1, 4) { return if rng.chance(1, 12) { rng.pick(&odd_leaves()).clone() } else { rng.pick(&lv).clone() }; }
     match rng.below(9) {
         0 => Expr::new_negate(rand_expr(rng, depth - 1)),
         1 => Expr::new_plus(rand_expr(rng, depth - 1)),
@@ -106,6 +115,11 @@ pub fn run(o: &Opts) -> i32 {
     let l0 = leaves();
     let mut l1 = vec![]; parents(&l0, &mut l1, false);
     for e in l0.iter().chain(l1.iter()) { emit(e, &mut total, &mut samples); }
+    // the odd leaves alone, under every constructor, and next to a plain leaf
+    let odd = odd_leaves();
+    let mut o1 = vec![];
+    for x in &odd { let mut t = vec![]; parents(&[x.clone()], &mut t, false); o1.extend(t); parents(&[l0[0].clone(), x.clone()], &mut o1, true); }
+    for e in odd.iter().chain(o1.iter()) { emit(e, &mut total, &mut samples); }
     // depth 2: parents of (leaves ∪ depth-1 with two leaves only)
     let small0: Vec<Expr> = l0[..2].to_vec();
     let mut s1 = vec![]; parents(&small0, &mut s1, true);
